@@ -42,12 +42,13 @@ func inflatedValues(w int) []uint64 {
 // fatal error, which no harness can survive. The injector therefore only changes the lowest bit of
 // byte 2 (+-64 KiB) and leaves bytes 3.. alone; prefixes are still inflated to 2^17 and 2^20 in every
 // inflate-prefix run, to 2^31 / 2^32-1 in rare huge runs, and to 2^63 / 2^64-1 for 8-byte prefixes.
-func dangerous(marks []mark) map[int]bool {
-	out := map[int]bool{}
+func dangerous(marks []mark) map[int]int {
+	out := map[int]int{}
 	for _, m := range marks {
 		if m.alloc && m.w >= 4 {
-			for i := 2; i < m.w; i++ {
-				out[m.off+i] = true
+			out[m.off+2] = 1 // lowest bit only
+			for i := 3; i < m.w; i++ {
+				out[m.off+i] = 2 // never
 			}
 		}
 	}
@@ -63,7 +64,8 @@ func putLE(b []byte, off, w int, u uint64) {
 // forEachFault enumerates the faulted variants of in for one fault class. The enumeration starts at a
 // decision-chosen rotation so that a defect at one position cannot permanently hide one at a later
 // position (a run ends at its first violation). fn returns false to stop.
-func forEachFault(s *simrt.Sim, class string, in []byte, marks []mark, huge bool, fn func(b []byte, desc string)) {
+func forEachFault(s *simrt.Sim, class string, in []byte, marks []mark, huge bool, fn0 func(b []byte, kind, desc string)) {
+	fn := func(b []byte, desc string) { fn0(b, faultKindOf(class), desc) }
 	switch class {
 	case "truncate":
 		// complete: every proper prefix
@@ -114,7 +116,7 @@ func forEachFault(s *simrt.Sim, class string, in []byte, marks []mark, huge bool
 				case "+1":
 					b[p.off]++
 				}
-				if b[p.off] == old || (dang[p.off] && variant != "^01" && variant != "+1") {
+				if b[p.off] == old || (dang[p.off] > 0 && variant != "^01") {
 					continue
 				}
 				s.Fault("flip-" + p.kind)
@@ -161,7 +163,10 @@ func forEachFault(s *simrt.Sim, class string, in []byte, marks []mark, huge bool
 				if s.Choose(4) == 0 {
 					mask = byte(1 + s.Choose(255))
 				}
-				if dang[p] {
+				if dang[p] == 2 {
+					continue
+				}
+				if dang[p] == 1 {
 					mask = 1
 				}
 				b[p] ^= mask
@@ -176,7 +181,7 @@ func forEachFault(s *simrt.Sim, class string, in []byte, marks []mark, huge bool
 		}
 		if len(dangerous(marks)) > 0 {
 			// shifting bytes into a 4/8-byte allocation prefix produces random gigabyte lengths
-			forEachFault(s, "flip-sampled", in, marks, huge, fn)
+			forEachFault(s, "flip-sampled", in, marks, huge, fn0)
 			return
 		}
 		for i := 0; i < 16; i++ {
